@@ -269,3 +269,23 @@ PROPS["C05"] = _hist("C05",
 PROPS["C15"] = _hist("C15",
     "lock-step histories: every build of a C01-style history (all edit kinds, taint, aliases, dir and bin outputs) is played twice: load_outputs=all and load_outputs=minimal in separate workspaces and caches. Exit status and executed set must be equal; every output of a target executed under minimal must equal the expectation (so every dependency output it read, also through aliases, was present and current).",
     "a minimal-mode build executed a target while >=1 of its direct dependencies was a cache hit (outputs had to be loaded on demand)", quick=64, thorough=1500)
+
+PROPS["C20"] = {
+    "level": "exploration",
+    "rule": ("queries: a generated workspace (1-6 targets over 5 packages, aliases on 35% of edges, glob/recursive/exclude/missing-file inputs, some leaf targets renamed *_test, bin outputs) queried through the real binary: "
+             "the full matrix deps/rdeps x {direct, -t} for EVERY node (stdout as a list must equal the sorted reference set: a duplicate line fails), y in deps -t x <=> x in rdeps -t y computed from the outputs themselves, "
+             "plus 4-10 generated queries: deps/rdeps with --target-type, owners for input files, non-inputs and declared-but-missing files (relative spellings from 6 different cwds and absolute paths), list with 0-2 patterns from a cwd and a type filter. "
+             "Then a full build, an edit of one source file, owners(f) and rdeps -t of each owner, and a rebuild: every executed target must be in owners(f) or their transitive rdeps. "
+             "Non-trivial = the graph has a diamond (a node reachable over two different first steps) or an alias; distinct by full case."),
+    "assumptions": [
+        "aliases are nodes of the dependency graph for deps/rdeps (they are printed by the real commands and needed for the inverse law); type filters apply to targets only",
+        "platform selectors are not generated here (C12 covers them); `changes` needs a git repository and is not exercised",
+    ],
+    "nt_floor": 0.3,
+    "parallel": 32,
+    "parts": [
+        {"name": "queries", "pkg": "c20", "test": "TestQueries", "binary": True,
+         "quick": {"shards": 24, "checks": 120, "cap": 1500, "shrinktime": "60s"},
+         "thorough": {"shards": 32, "checks": 4000, "cap": 14400, "shrinktime": "120s"}},
+    ],
+}
